@@ -1,6 +1,7 @@
 package gosym
 
 import (
+	"time"
 	"go/types"
 	"math/big"
 
@@ -59,6 +60,17 @@ func init() {
 		ex.pc = append(ex.pc, BVCmp(cmp, lo, c), BVCmp(OpSLT, c, MkBV(1<<62, 64)))
 		ex.clock = c
 		return c
+	}
+	I["time.ParseDuration"] = func(t *Thread, fn *ssa.Function, a []Value) Value {
+		str, ok := a[0].(*StrVal).Concrete()
+		if !ok {
+			unsupportedf("time.ParseDuration of a symbolic string")
+		}
+		d, err := time.ParseDuration(str)
+		if err != nil {
+			return Tuple{MkBV(0, 64), mkError(t, StrConst(err.Error()))}
+		}
+		return Tuple{MkBV(uint64(int64(d)), 64), (*IfaceVal)(nil)}
 	}
 	I[apiP+"LiveGoroutines"] = func(t *Thread, fn *ssa.Function, a []Value) Value {
 		n := 0
